@@ -1,13 +1,26 @@
 mod rng;
 mod direct_swap;
+mod direct_shares;
+mod direct_burn;
+mod direct_wire;
 mod constants;
+mod keys;
+mod sim;
+mod ixb;
+mod scen;
+mod fam_passport;
 
 fn arg<T: std::str::FromStr>(a: &[String], i: usize, d: T) -> T { a.get(i).and_then(|s| s.parse().ok()).unwrap_or(d) }
 
 fn main() {
+    std::env::set_var("RUST_LOG", "off");
     let a: Vec<String> = std::env::args().collect();
     match a.get(1).map(|s| s.as_str()) {
         Some("direct-swap") => direct_swap::main(arg(&a, 2, 0), arg(&a, 3, 100), arg(&a, 4, 40)),
+        Some("direct-shares") => direct_shares::main(arg(&a, 2, 0), arg(&a, 3, 3000), arg(&a, 4, "mul,split,pack,recipients".to_string())),
+        Some("direct-burn") => direct_burn::main(arg(&a, 2, 0), arg(&a, 3, 1000), arg(&a, 4, 40)),
+        Some("direct-wire") => direct_wire::main(arg(&a, 2, 0), arg(&a, 3, 200), arg(&a, 4, 0), arg(&a, 5, 1), arg(&a, 6, -1)),
+        Some("bank-passport") => scen::run_family(arg(&a, 2, 0), arg(&a, 3, 16), arg(&a, 4, 60), fam_passport::scenario),
         Some("dump-constants") => constants::main(),
         _ => { eprintln!("usage: dzh <family> ..."); std::process::exit(2); }
     }
